@@ -535,9 +535,14 @@ class Scene(Geometry3D):
         # get the area of every geometry that has an area property
         areas = {n: g.area for n, g in self.geometry.items() if hasattr(g, "area")}
         # sum the area including instancing
-        return sum(
-            (areas.get(self.graph[n][1], 0.0) for n in self.graph.nodes_geometry), 0.0
-        )
+        total = 0.0
+        for node in self.graph.nodes_geometry:
+            transform, name = self.graph[node]
+            if name in areas:
+                # area scales with the square of the scale of the instance
+                scale = np.abs(np.linalg.det(transform[:3, :3])) ** (2.0 / 3.0)
+                total += areas[name] * scale
+        return total
 
     @caching.cache_decorator
     def volume(self) -> float64:
@@ -552,10 +557,14 @@ class Scene(Geometry3D):
         """
         # get the area of every geometry that has a volume attribute
         volume = {n: g.volume for n, g in self.geometry.items() if hasattr(g, "area")}
-        # sum the area including instancing
-        return sum(
-            (volume.get(self.graph[n][1], 0.0) for n in self.graph.nodes_geometry), 0.0
-        )
+        # sum the volume including instancing
+        total = 0.0
+        for node in self.graph.nodes_geometry:
+            transform, name = self.graph[node]
+            if name in volume:
+                # volume scales with the determinant of the instance transform
+                total += volume[name] * np.abs(np.linalg.det(transform[:3, :3]))
+        return total
 
     @caching.cache_decorator
     def triangles(self) -> NDArray[float64]:
